@@ -21,6 +21,7 @@ RULE = ("stream small: every shape of dim 1..4 (quick: extents 1..3, dim<=3 also
         "non-trivial = dim >= 2 and some extent > 1; distinct = distinct case lines")
 KINDS = ["vec", "arr", "sv", "uv", "tup"]
 IKINDS = ["veci", "arri"]
+UKINDS = ["vecu", "arru", "tupu"]
 
 THEOREM_STATUS = {"proved": ["C01_strides_are_suffix_products", "C01_indices_in_bounds", "C01_offset_of_indices",
                              "C01_indices_of_offset", "C01_enumeration_is_row_major", "C01_order_preserving",
@@ -111,6 +112,10 @@ def gen_cases(rng, tier):
             add("large", "roundtrip S:%s I:%d %s" % (rng.choice(KINDS), k, L(s)))
             idx = unravel(k, s); strides = [prod(s[i + 1:]) for i in range(len(s))]
             add("large", "offset S:%s %s %s" % (rng.choice(KINDS), L(idx), L(strides)))
+            # 32-bit unsigned index containers: every extent / stride fits 32 bits, the products need 64
+            if max(idx + strides) < 2 ** 32:
+                add("large", "offset S:%s %s %s" % (rng.choice(UKINDS), L(idx), L(strides)))
+                add("large", "roundtrip S:%s I:%d %s" % (rng.choice(UKINDS), k, L(s)))
     return out
 
 
